@@ -116,4 +116,14 @@ META = {
           "U5 a new series no sooner than the retry delay after a failed one; U7 a READ during the wait is answered once, after the series ends, with exactly what it selects, unless superseded, and other requests in zero virtual time; U8 an update in the ready state produces an unsolicited response in the same instant."),
     note="ENABLE/DISABLE take effect at the order stamp of their response (requests retained while a solicited series is aborted are processed later than they were sent).",
  ),
+ "C15": dict(
+    engine="vh",
+    design_ref="5.15",
+    technique="runtime monitor: reference acceptance predicate over the response stream vs task outcome, CONFIRMs on the wire and ReadHandler call brackets, master driven over the real transport in virtual time",
+    text=("Exploration. The real MasterTask (production link/transport) runs over PhysLayer::Verif with two associations; the harness is the outstation. For every task kind (single and multi-fragment reads up to 19 fragments so that the 4-bit sequence wraps, "
+          "direct operate, select+operate, non-LAN time sync steps, restart, dead-band write, empty-response request) it sends unacceptable fragments at any position (wrong sequence, wrong/unknown source, UNS on a solicited response, every illegal FIR/FIN/CON for the position, IIN2 rejections, "
+          "truncated/unknown objects, null and data unsolicited responses and their duplicates) optionally followed by the faithful answer. Rules: success only after an acceptable answer and never after a fatal fragment; exactly one CONFIRM (same sequence, same UNS) for each accepted fragment with CON and none for rejected ones; "
+          "ReadHandler receives begin/objects/end exactly once per accepted fragment in wire order; duplicate unsolicited fragments are confirmed but not re-delivered; an unsolicited response ignored during start-up and retried after the integrity poll is delivered."),
+    note="Time bounds use the response timeout in virtual time. The quiet association configuration disables automatic tasks in the main scenario.",
+ ),
 }
